@@ -104,6 +104,7 @@ type Exec struct {
 	goalSk []Term
 	dirty  map[string]bool
 	sorts  []sortEvent
+	rebinds map[ssa.Value][]rebind
 	closures []*ssa.Function // function constants materialised by this activation
 	mapLits  map[*cell][][2]Term // straight-line map literals: the (key, value) pairs stored so far
 }
@@ -122,12 +123,25 @@ func (e *Exec) unsupported(msg string) {
 }
 
 func (e *Exec) lookup(v ssa.Value) (val, bool) {
+	// a value rebound by an in-place library call (slices.SortFunc) has its new contents only where the call dominates
+	if rbs := e.root().rebinds[v]; len(rbs) > 0 && e.curBlock != nil {
+		for i := len(rbs) - 1; i >= 0; i-- {
+			if rbs[i].block == e.curBlock || rbs[i].block.Dominates(e.curBlock) {
+				return rbs[i].v, true
+			}
+		}
+	}
 	for x := e; x != nil; x = x.parent {
 		if r, ok := x.vals[v]; ok {
 			return r, true
 		}
 	}
 	return val{}, false
+}
+
+type rebind struct {
+	block *ssa.BasicBlock
+	v     val
 }
 
 func (e *Exec) isTainted(t Term) bool {
